@@ -51,6 +51,7 @@ import (
 	"iter"
 	"regexp"
 	"regexp/syntax"
+	"strconv"
 	"strings"
 	"unicode"
 	"unicode/utf8"
@@ -154,9 +155,19 @@ func stdlibDepthConfig() meta.Config {
 func MustCompile(pattern string) *Regex {
 	re, err := Compile(pattern)
 	if err != nil {
-		panic("regexp: Compile(`" + pattern + "`): " + err.Error())
+		panic(`regexp: Compile(` + quotePattern(pattern) + `): ` + err.Error())
 	}
 	return re
+}
+
+// quotePattern quotes a pattern for the MustCompile panic messages the way regexp
+// does: backquoted when the pattern can be written that way, otherwise as an
+// interpreted string literal.
+func quotePattern(s string) string {
+	if strconv.CanBackquote(s) {
+		return "`" + s + "`"
+	}
+	return strconv.Quote(s)
 }
 
 // CompilePOSIX is like Compile but restricts the regular expression to
@@ -195,7 +206,7 @@ func CompilePOSIX(pattern string) (*Regex, error) {
 func MustCompilePOSIX(pattern string) *Regex {
 	re, err := CompilePOSIX(pattern)
 	if err != nil {
-		panic("regexp: CompilePOSIX(`" + pattern + "`): " + err.Error())
+		panic(`regexp: CompilePOSIX(` + quotePattern(pattern) + `): ` + err.Error())
 	}
 	return re
 }
